@@ -83,6 +83,8 @@ def _replay_search(h, name, rec, seed, xfails):
         for n2, inp in fails:
             if n2 == name:
                 return {"confirmed": True, "source": "solver-model", "inputs": inp}
+        if name.endswith(".noraise") and harness.LAST_REAL_ERRORS:
+            return {"confirmed": True, "source": "solver-model", "inputs": harness.LAST_REAL_ERRORS[0][1], "raised": harness.LAST_REAL_ERRORS[0][0]}
     for n2, inp in xfails:
         if n2 == name:
             return {"confirmed": True, "source": "cross-check-sample", "inputs": inp}
@@ -93,6 +95,8 @@ def _replay_search(h, name, rec, seed, xfails):
     for n2, inp in fails:
         if n2 == name:
             return {"confirmed": True, "source": "random-search", "inputs": inp}
+    if name.endswith(".noraise") and harness.LAST_REAL_ERRORS:  # the real code raised, natively, on a sampled input of the harness
+        return {"confirmed": True, "source": "random-search", "inputs": harness.LAST_REAL_ERRORS[0][1], "raised": harness.LAST_REAL_ERRORS[0][0]}
     return {"confirmed": False, "source": "none", "inputs": None}
 
 
